@@ -19,24 +19,24 @@ CHECKS = {
          "Disk states are materialised with plain os calls; no symlinks/permissions; removal of the real root and directory-into-itself copies are excluded (unbounded on disk).",
          "DESIGN.md 3/C02"),
  "C03": ("exploration",
-         "bounded exhaustive enumeration of path strings x 16 operations x 21 view kinds on the real code with canaries outside every view root (no sampling)",
+         "bounded exhaustive enumeration of path strings x 16 operations x 24 view kinds x preludes on the real code with canaries outside every view root (no sampling)",
          "Every path string of <=3 (quick) / <=4 (thorough) segments over {name,'.','..',''} with/without leading '/' is passed to every operation (both arguments of the copies, and as Filespace() argument followed by write/list/remove) of every view kind: memory child, child-of-child, disk root/child/grandchild, encrypted over either, read-only mask and its children, sub-path helper and nesting, cache children and caches over child views (committed before the comparison). Oracle: the snapshot of everything outside the view root (store tree, host directory, cache-visible tree) is byte-identical, and no returned content/listing/stat/existence answer belongs to a node outside the root.",
-         "Segment bound as stated (the 'randomly beyond' part is not claimed); one store shape with same-named nodes inside and outside; the view's own root node counts as inside.",
+         "Segment bound as stated (the 'randomly beyond' part is not claimed); every case also after an 'outside sweep' (all reads of all store nodes through the parent object and a sibling view) and, for climbing paths, after write/list/mkdir+remove preludes through the same view object; three view kinds over a store written through the encryption; one store shape with same-named nodes inside and outside; the view's own root node counts as inside.",
          "DESIGN.md 3/C03"),
  "C04": ("fault_enumeration",
          "bounded exhaustive enumeration of stream cases (content x chunking x previous state x buffer x backend) and exhaustive single-fault (thorough: double-fault) positions during every copy helper call over all 25 backend pairs; bounded-preemption schedule exploration of the concurrent tree copy",
-         "Writers: every split of each content into <=3 chunks over every previous destination state on 5 backends, read back through ReadFile and Reader with 4 buffer sizes. Copy helpers (fshelper.Copy, Copier.Do for file and directory, StreamCopy) on 4 tree shapes for every source/destination backend pair, once fault-free (must succeed and be complete) and once per numbered call crossing the Filespace/Reader/Writer interfaces failing (error and short-write variants): nil result implies a byte-identical destination. fshelper.Copy additionally under every schedule with <=1 (thorough 2) preemptions.",
-         "Faults are injected by a harness-side Filespace wrapper (no source annotation); bool queries fail by answering false; 5 KiB is the largest content.",
+         "Writers: every split of each content into <=3 chunks over every previous destination state on 5 backends, read back through ReadFile and Reader with 4 buffer sizes. Copy helpers (fshelper.Copy, Copier.Do for file and directory, StreamCopy) on 5 tree shapes (one with a 70 KiB file) for every source/destination backend pair, fault-free over 5 destination pre-states (empty, older content, unrelated nodes, files where the source has directories, directories where it has files; nil result => every source node present with kind and bytes), with the failing layer also below the encryption, and once per numbered call crossing the Filespace/Reader/Writer interfaces failing (error and short-write variants): nil result implies a byte-identical destination. fshelper.Copy additionally under every schedule with <=1 (thorough 2) preemptions.",
+         "Faults are injected by a harness-side Filespace wrapper (no source annotation); bool queries fail by answering false; 5 KiB is the largest stream content, 70 KiB the largest copied file.",
          "DESIGN.md 3/C04"),
  "C05": ("fault_enumeration",
-         "bounded exhaustive enumeration of cipher/base/secret/salt/host-binding configurations x plaintexts x write/read paths; every truncation length and every single-byte corruption of the stored bytes; name-space lock-step with the tree model",
+         "bounded exhaustive enumeration of cipher/base/secret/salt/host-binding configurations x plaintexts x write/read paths; every truncation length and every single-byte corruption of the stored bytes; name-space lock-step with the tree model; preemption-bounded exhaustive schedule exploration of 2-3 filespaces with different secrets used concurrently",
          "Round trip through all write-path/read-path pairs (incl. overwrite of shorter/longer content), substring secrecy of the raw bytes, nonce freshness, rejection under every other (secret,salt) of the pool, and for the stored bytes of each plaintext EVERY truncation length 0..N-1 and EVERY single-byte corruption (all 255 values for short files) must be answered with an error - never data, never a panic - on a fresh base each time; name-space operations are compared step by step with the tree model through the encrypted filespace.",
-         "crypto/rand.Reader replaced by a deterministic non-repeating stream; cryptographic strength out of scope; long files use strided interior positions (stated in evidence).",
+         "crypto/rand.Reader replaced by a deterministic non-repeating stream; concurrent part: 14 programs, <=2/3 preemptions, race oracle on the encryptfs packages; caller buffers are re-used and wiped; cryptographic strength out of scope; long files use strided interior positions (stated in evidence).",
          "DESIGN.md 3/C05"),
  "C06": ("model_checking",
-         "exhaustive enumeration of bounded cache-operation histories (depth 3/4, 27-op alphabet incl. intermediate Commits) over 4 initial remotes on the real fscache, compared with a fold over the tree reference model; exhaustive journal map-order choices and exhaustive failing-remote-call positions during Commit",
+         "exhaustive enumeration of bounded cache-operation histories (depth 3/4, 31-op alphabet incl. intermediate Commits and copies onto written paths) over 4 initial remotes on the real fscache, compared with a fold over the tree reference model; exhaustive journal map-order choices and exhaustive failing-remote-call positions during Commit",
          "Every history is replayed on a fresh cache over a fresh remote; the remote must be untouched before Commit, equal to the model fold after Commit and after a second Commit; for short histories every iteration order of the four journal maps (explorer choice) and every single failing remote call during Commit (then a fault-free Commit) are explored. Three design defects of the cache are recorded as known findings with root-cause matchers; four were repaired.",
-         "Expected remote = tree-model fold of the operations the cache reported successful; histories containing an operation whose outcome is unspecified at that point are skipped (counted).",
+         "Expected remote = tree-model fold of the operations the cache reported successful; histories containing an operation whose outcome is unspecified at that point are skipped (counted), except a file copied onto an existing file: if the cache reports success the destination is a copy from then on.",
          "DESIGN.md 3/C06"),
  "C07": ("model_checking",
          "same bounded-history enumeration as C06; after every history every read-type operation on an 18-path pool (cache and child views) is compared with the overlay reference model",
@@ -55,12 +55,12 @@ CHECKS = {
          "DESIGN.md 3/C10"),
  "C11": ("model_checking",
          "program enumeration (scope trees x task bodies x failing listeners x late-failing tasks) x preemption-bounded exhaustive schedule exploration with a happens-before state cache, on the real scope/eventscope/contextscope code",
-         "85 programs over 5 scope trees (root; shared child; isolated child; child+grandchild; shared+isolated) with one closer thread per scope and one thread per task; recorders on all 11 events on the root (twice) and on every child. Every schedule within the bound (2-scope trees: 1 quick / 2 thorough preemptions; 3-scope trees: 0 / 1) is executed; the oracle checks on the global-step event log: event order and exactly-once, commit xor rollback where the error source is ordered, waiting for tasks and children, Close result, loud second Close without events, listener order, shared vs isolated failure, parent stop reaching the isolated child, no panic, no deadlock.",
+         "105 programs over 5 scope trees (task bodies incl. Stop-then-Kill / Stop-then-AppendError) (root; shared child; isolated child; child+grandchild; shared+isolated) with one closer thread per scope and one thread per task; recorders on all 11 events on the root (twice) and on every child. Every schedule within the bound (2-scope trees: 1 quick / 2 thorough preemptions; 3-scope trees: 0 / 1) is executed; the oracle checks on the global-step event log: event order and exactly-once, commit xor rollback where the error source is ordered, waiting for tasks and children, Close result, loud second Close without events, listener order, shared vs isolated failure, parent stop reaching the isolated child, no panic, no deadlock.",
          "Commit/rollback and the Close result are only judged where the error source cannot race with the decision; bounds as reported; HB-cache soundness relies on harness observations being recorded as dependent trace events.",
          "DESIGN.md 3/C11"),
  "C12": ("model_checking",
          "program enumeration x stateless preemption-bounded DFS over all schedules of the real contextscope/scope code under the controlled scheduler, with a vector-clock happens-before race oracle on multi-word fields",
-         "All pairs of single operations {AppendError, Kill, Stop, IsDone, Errors}, curated two-operation threads and three-thread programs on plain, isolated, full and child scopes, plus child creation/closing after and racing with the parent's end; every schedule with <=3 (quick) / <=4 (thorough) preemptions for two threads and <=2/3 for three; oracle: no panic, error count and identity, done signal, Wait/Close report, no deadlock, no unordered conflicting access to the error slices.",
+         "All pairs of single operations {AppendError, Kill, Stop, IsDone, Errors}, curated two-operation threads and three-thread programs on plain, isolated, full and child scopes, plus child creation/closing after and racing with the parent's end; every schedule with <=3 (quick) / <=4 (thorough) preemptions for two threads and <=2/3 for three; readers that act on the done signal, errors recorded through the parent wrapper of a shared context with Err() calls in between; oracle: no panic, error count and identity, done signal, done-implies-error-visible (programs without Stop), the texts of Err()/Wait()/Close()/parent.Err() naming every appended error, no deadlock, no unordered conflicting access to the error slices.",
          "Bounds as reported in evidence; word-sized fields are outside the race oracle; the shim's model of Mutex/RWMutex/WaitGroup/channels/select is trusted.",
          "DESIGN.md 3/C12"),
  "C13": ("model_checking",
@@ -70,26 +70,26 @@ CHECKS = {
          "DESIGN.md 3/C13"),
  "C14": ("model_checking",
          "task-graph enumeration x preemption-bounded exhaustive schedule exploration with a happens-before state cache of the real runner/task manager/terminal loop inside a mock application bootstrapped per execution",
-         "Task graphs on 2-3 tasks (all wait shapes), failing-command variants, body durations, a submission waiting for an unknown task, nested pip:run from inside a body and write/read resource locks are submitted through the real Runner into the real self sandbox; probe commands log begin/end with global steps. Every schedule within the bound is executed (dependent pairs: 1 preemption quick / 2 thorough; other two-task graphs and chains 0/1; three-task graphs with concurrent tasks: thorough only, free switches) and the oracle checks wait order, never-after-failed-prerequisite, sequential bodies stopping at a failing command, refused submissions, TasksManager.Wait's result, lock exclusion, no panic, no deadlock.",
+         "Task graphs on 2-3 tasks (all wait shapes), failing-command variants, body durations, a submission waiting for an unknown task / for itself / for a later task, nested pip:run from inside a body, write/read resource locks (also combined with wait lists) and tasks in a sandbox that reports its outcome only by return value are submitted through the real Runner into the real self sandbox; probe commands log begin/end with global steps. Every schedule within the bound is executed (dependent pairs: 1 preemption quick / 2 thorough; other two-task graphs and chains 0/1; three-task graphs with concurrent tasks: thorough only, free switches) and the oracle checks wait order, never-after-failed-prerequisite, sequential bodies stopping at a failing command, refused submissions, TasksManager.Wait's result, lock exclusion, no panic, no deadlock.",
          "Ready select cases are all explored at no cost; accesses to objects outside the focus packages do not order executions in the happens-before cache (declared reduction); siblings sharing a failed context may be cut short.",
          "DESIGN.md 3/C14"),
  "C15": ("model_checking",
          "configuration enumeration (all lock maps over 2 resources for 2-3 holders) x preemption-bounded exhaustive schedule exploration of the real shared mutex, lock-map iteration order as an explored choice",
-         "Every unordered pair and (tiered) triple of lock maps over resources {a,b} is run as holders Lock/enter/exit/Unlock under every schedule within the preemption bound; exclusion is checked at every entry, every compatible pair must overlap in at least one explored execution (so the lock does not serialise readers or disjoint holders), and no schedule may deadlock (the shim models RWMutex writer preference).",
+         "Every unordered pair and (tiered) triple of lock maps over resources {a,b} is run as holders Lock/enter/exit/Unlock under every schedule within the preemption bound; exclusion is checked at every entry, every compatible pair must overlap in at least one explored execution (so the lock does not serialise readers or disjoint holders), and no schedule may deadlock (the shim models RWMutex writer preference). The task runner (the lock's main client) is driven through the whole-application harness with 3 programs combining wait lists and write/read locks.",
          "2 resources, 2-3 holders, bounds as reported.",
          "DESIGN.md 3/C15"),
  "C16": ("model_checking",
          "program enumeration (bodies x handler subsets x failing handlers) x bounded exhaustive schedule exploration with a happens-before state cache through the real terminal seam of a mock application",
-         "For every body kind (succeeds, fails at command 1/2, appends an error, spawns a nested task that succeeds/fails), every subset of success/fail/finally handlers and one failing handler, the script `pip:try ...; next command` runs through the real terminal loop; the oracle checks which handlers ran, that every handler began after the end of the body and of every task it spawned, the error state of the surrounding scope (contained unless a handler failed), that the script continues, no panic, no deadlock - under every schedule within the bound (quick: free switches at blocking points and all ready select cases; thorough: 1 preemption).",
-         "With a failing handler only 'the wrong handler never runs' and containment are judged (handlers are concurrent tasks sharing a context).",
+         "For every body kind (succeeds, fails at command 1/2, appends an error, spawns a nested task that succeeds/fails in the self sandbox or in a sandbox reporting only by return value), every subset of success/fail/finally handlers and one failing handler, the script `pip:try ...; next command` runs through the real terminal loop; the oracle checks which handlers ran, that every handler began after the end of the body and of every task it spawned, the error state of the surrounding scope (contained unless a handler failed), that the script continues, no panic, no deadlock - under every schedule within the bound (quick: free switches at blocking points and all ready select cases; thorough: 1 preemption).",
+         "With a failing handler only 'the wrong handler never runs' and containment are judged per execution (handlers are concurrent tasks sharing a context), plus reachability goals over the completely explored schedule set: some schedule runs the finally handler (resp. the matching handler).",
          "DESIGN.md 3/C16"),
  "C17": ("exploration",
-         "exhaustive enumeration of ALL byte strings up to length 7 (quick) / 9 (thorough) over the 9-symbol alphabet of significant bytes, and of all rendered argument lists (<=3 arguments, 12-entry pool, 3 quoting forms, 4 separators)",
-         "Totality is checked on every string; strings without quote/backslash/heredoc against a plain-word reference (per-line fields byte-for-byte, eof flags, exact stop at the newline); strings whose backslashes precede a letter or a continuation newline against the argument-count reference; every rendered list must split back to the original list and leave the next command for the next call; InjectArgs mapping is checked on every list.",
+         "exhaustive enumeration of ALL byte strings up to length 7 (quick) / 9 (thorough) over the 9-symbol alphabet of significant bytes and up to length 4/5 over a 12-symbol alphabet of blank-like bytes, and of all rendered argument lists (<=3 arguments, 14-entry pool, 3 quoting forms, 4 separators)",
+         "Totality, agreement of SplitArguments with ReadArguments and conservation of bytes >= 0x80 are checked on every string; strings without quote/backslash/heredoc against a plain-word reference (per-line fields byte-for-byte, eof flags, exact stop at the newline); strings whose backslashes precede a letter or a continuation newline against the argument-count reference; every rendered list must split back to the original list and leave the next command for the next call; InjectArgs mapping is checked on every list.",
          "Length bound as stated (no random part claimed); content of words containing a bare backslash is unspecified by the statement and only counted.",
          "DESIGN.md 3/C17"),
  "C18": ("exploration",
-         "exhaustive enumeration of environment values over 12 shell-significant symbols (<=3/4 symbols) and of names (<=4 symbols); generated scripts executed by the real /bin/sh with a canary command on PATH",
+         "exhaustive enumeration of environment values over 12 shell-significant symbols (<=3/4 symbols), 20 word-level symbols (<=2/3) and every byte value in six positions, and of names (<=4 symbols, every byte value); generated scripts executed by the real /bin/sh with a canary command on PATH",
          "For both start-up script builders (container builder; SSH builder through the verif export hook) every value is configured alone and next to a second variable, the generated script plus NUL-terminated printf lines is fed to /bin/sh on stdin in an empty directory; the shell must print every variable verbatim (up to trailing newlines), exit 0 and leave the directory empty although `a` is a real command that drops a canary file. Every name over 10 symbols accepted by Set/SetAll must be a plain identifier.",
          "dash as /bin/sh of this image; no SSH/container engine involved; symbol bound as stated.",
          "DESIGN.md 3/C18"),
@@ -100,7 +100,7 @@ CHECKS = {
          "DESIGN.md 3/C19"),
  "C20": ("exploration",
          "exhaustive bounded enumeration of nested maps, JSON documents (every leaf string up to 2/3 symbols in every spelling) and flat maps against encoding/json; bounded-preemption schedule exploration of the concurrent loader",
-         "Flatten/rebuild inverse laws on all nested maps (3 keys, depth<=3, <=3/4 leaves); JSON reading compared with encoding/json on 4 document shapes x every leaf string over 8 JSON-significant symbols incl. escaped spellings, numbers and skipped leaf kinds; JSON writing (compact and formatted) must be valid for encoding/json, denote the same map and round-trip, for every value string over 10 symbols; the translation loader is explored under every schedule with <=1-3 preemptions on 8 directory layouts.",
+         "Flatten/rebuild inverse laws on all nested maps (3 keys, depth<=3, <=3/4 leaves); JSON reading compared with encoding/json on 4 document shapes x every leaf string over 9 JSON-significant symbols incl. escaped spellings and surrogate pairs, numbers and skipped leaf kinds; JSON writing (compact and formatted) must be valid for encoding/json, denote the same map and round-trip, for every value string over 14 symbols (incl. U+1F600, U+10000, U+FFFF) and every prefix-free key set of <=3/4 keys over segments that are prefixes of one another; the translation loader is explored under every schedule with <=1-3 preemptions on 8 directory layouts.",
          "encoding/json is the reference; symbol-length bounds as stated; loader values are %-free.",
          "DESIGN.md 3/C20"),
  "C08": ("model_checking",
